@@ -179,7 +179,14 @@ def write_evidence(ctx, violations, inconclusive, reported, err):
     scen = []
     fns = set()
     covers = 0
+    evaluations = 0
+    nontrivial = 0
     for r in ctx.results:
+        evaluations += r.get('paths', 0) + r.get('smt_queries', 0)
+        if r.get('leaves') is not None:
+            nontrivial += sum(1 for l in r['leaves'] if getattr(l, 'nforks', 0) > 0)
+        else:
+            nontrivial += r.get('obligations', 0) + len(r.get('covered', []))
         states += r.get('paths', 0) + r.get('events', 0)
         transitions += r.get('instrs', 0)
         queries += r.get('queries', 0)
@@ -203,6 +210,12 @@ def write_evidence(ctx, violations, inconclusive, reported, err):
         'wall_s': round(time.time() - ctx.t0, 2),
         'violations': reported,
         'coverage': {
+            'evaluations': max(evaluations, 1),
+            'distinct_nontrivial': nontrivial,
+            'rule': 'evaluations = symbolic execution paths explored + SMT queries discharged; non-trivial = distinct paths that '
+                    'passed at least one solver-decided fork (symbolic input, panic point, op choice) for sequential scenarios, '
+                    'distinct proof obligations / reachability witnesses decided over all interleavings for concurrent ones, '
+                    'harnesses for Kani, derivation queries for the auto-trait check',
             'states': max(states, 1),
             'transitions': max(transitions, 1),
             'traces_validated_against_impl': ctx.traces_validated,
